@@ -1,8 +1,17 @@
 #!/bin/bash
 set -e
-CF="-O1 -g -fsanitize=address -fno-omit-frame-pointer -I$REPO -I$MC"
-clang -c $CF $REPO/igris/util/crc.c -o $BUILD/crc.o
-clang++ -std=c++17 -c $CF $VERIF/harness/c17/c17_crc.cpp -o $BUILD/h.o
-clang++ -std=c++17 -O2 -c -I$MC $MC/mc.cpp -o $BUILD/mc.o
+. $MC/par.sh
+# Two builds of crc.c: clang -O1 (fast, the big enumerations) and gcc -O0 with the alignment sanitizer
+# (every load written in the source is executed: an over-read that an optimiser would delete stays visible,
+# and a word load through a misaligned pointer is a report although x86 tolerates it).
+CF="-g -fsanitize=address -fno-omit-frame-pointer -I$REPO -I$MC"
+par clang -c -O1 $CF $REPO/igris/util/crc.c -o $BUILD/crc.o
+par clang++ -std=c++17 -c -O1 $CF $VERIF/harness/c17/c17_crc.cpp -o $BUILD/h.o
+par gcc -c -O0 $CF -fsanitize=alignment -fno-sanitize-recover=alignment $REPO/igris/util/crc.c -o $BUILD/crc_o0.o
+par g++ -std=c++17 -c -O0 $CF -fsanitize=alignment -fno-sanitize-recover=alignment -DC17_STRICT_BUILD $VERIF/harness/c17/c17_crc.cpp -o $BUILD/h_o0.o
+par g++ -std=c++17 -O2 -c -I$MC $MC/mc.cpp -o $BUILD/mc.o
+parwait
 clang++ -fsanitize=address $BUILD/h.o $BUILD/crc.o $BUILD/mc.o -o $BUILD/c17
+g++ -fsanitize=address,alignment $BUILD/h_o0.o $BUILD/crc_o0.o $BUILD/mc.o -o $BUILD/c17_strict
 echo "crc $BUILD/c17" > $BUILD/runs.txt
+echo "strict $BUILD/c17_strict --only affine_basis,chaining_every_split,alignment_x_length,long_messages" >> $BUILD/runs.txt
